@@ -158,8 +158,8 @@ P("C11", [("K12", r"_q"), ("V5", None), ("V4", None), ("V19", None), ("V22", Non
   "Partial (first sentence, function-level links): Kani runs the real make_solution on every answer stream up to the bound that contains an interruption and shows the result is "
   "always Some(Ambig(_)) — never Unique, never 'no solution'; Verus proves the SLG stream reports QuantumExceeded only when the caller's callback returned false, and that an "
   "interrupted iteration of the recursive solver returns Ambig(Unknown) without touching the solver state. BOUNDED (stream length <= 2/3) for make_solution; Verus parts unbounded.",
-  "Second sentence: decided for one mechanism only — Verus unit V19 states that solve_goal never makes an answer permanent while the callback says stop; this is REFUTED on the pinned tree "
-  "(genuine defect, recorded in known_findings.json with a failing input: the recursive solver with its cache returns the cached interrupted `Ambiguous` to every later solve). "
+  "Second sentence: decided for one mechanism only — Verus unit V19 states that solve_goal never makes an answer permanent while the callback says stop; this was REFUTED on the pinned tree "
+  "(genuine defect: the recursive solver with its cache returned the cached interrupted `Ambiguous` to every later solve; repaired by /repo commit 3ae5951, see known_findings.json) and holds on the repaired tree. "
   "SLG side of the second sentence, one mechanism: an interrupted solve ends by dropping its SolveState, and Verus unit V22 proves that this returns every strand still held by the stack to the end of "
   "its own table's queue and empties the stack, so the forest a later solve sees has lost nothing; that the forest then answers like a fresh one is a history property and is not reached (see C10).",
   "contract-based verification: Kani harness contract over enumerated streams + Verus on extracted text")
@@ -210,8 +210,8 @@ P("C10", [("V24", None), ("V18", None)],
   "proof",
   "Partial (the recursive solver's cache discipline named in the anchors): Verus proves on the verbatim text of RecursiveContext::solve_goal that a cache hit returns the cached answer and changes nothing (V18); "
   "that for a new goal the answer returned is what the goal's last fixed-point iteration produced - the same whether or not a cache is configured; that the goal's node and everything above it are made permanent "
-  "in ONE move_to_cache batch headed by the goal and carrying the returned answer exactly when the iteration's minimums do not reach below the goal's own depth-first number (its SCC is complete), are "
-  "discarded by rollback_to instead when caching is disabled, and that otherwise NOTHING is made permanent: the node stays in the graph, off the stack, with the returned answer and with its links recorded (V24), "
+  "in ONE move_to_cache batch headed by the goal and carrying the returned answer exactly when the iteration's minimums do not reach below the goal's own depth-first number (its SCC is complete) and the caller has not asked to stop, are "
+  "discarded by rollback_to instead when caching is disabled or the solve was interrupted, and that otherwise NOTHING is made permanent: the node stays in the graph, off the stack, with the returned answer and with its links recorded (V24), "
   "so that every later hit lowers its caller's minimums (V18, clause B). Unbounded.",
   "Not reached: that answers cached this way equal what a fresh solver computes (needs soundness of the whole search, C01), the SLG forest's table reuse (get_or_create_table_for_ucanonical_goal: FxHashMap + "
   "state machine), the bodies of SearchGraph::rollback_to / move_to_cache (hash-map retain with closures; their effect on the node sequence is an assumed contract). The known finding of C11 (an INTERRUPTED "
